@@ -113,21 +113,26 @@ func (g *Generator) generateIndex(file *os.File, frugal *parser.Frugal) error {
 }
 
 func transitiveIncludes(module *parser.Frugal) Modules {
-	moduleMap := transitiveIncludesRec(module, map[string]*parser.Frugal{})
-	modules := Modules{}
-	for _, module := range moduleMap {
-		modules = append(modules, module)
-	}
-	sort.Sort(modules)
+	// Collect the modules in a fixed order (depth first, includes by name) and
+	// sort stably: modules with equal names keep that order, so the index does
+	// not depend on map iteration order.
+	modules := transitiveIncludesRec(module, Modules{}, map[string]bool{})
+	sort.Stable(modules)
 	return modules
 }
 
-func transitiveIncludesRec(module *parser.Frugal, moduleMap map[string]*parser.Frugal) map[string]*parser.Frugal {
-	moduleMap[module.File] = module
-	for _, include := range module.ParsedIncludes {
-		moduleMap = transitiveIncludesRec(include, moduleMap)
+func transitiveIncludesRec(module *parser.Frugal, modules Modules, seen map[string]bool) Modules {
+	if seen[module.File] {
+		return modules
 	}
-	return moduleMap
+	seen[module.File] = true
+	modules = append(modules, module)
+	for _, include := range module.OrderedIncludes() {
+		if included, ok := module.ParsedIncludes[include.Name]; ok {
+			modules = transitiveIncludesRec(included, modules, seen)
+		}
+	}
+	return modules
 }
 
 func (g *Generator) generateModule(file *os.File, module *parser.Frugal) error {
